@@ -37,6 +37,15 @@ pub struct Violation {
     pub detail: Value,
 }
 
+/// Root of the repository under test (default /repo; a mutant lab may point elsewhere).
+pub fn repo_root() -> PathBuf {
+    std::env::var_os("VERIF_REPO").map(PathBuf::from).unwrap_or_else(|| PathBuf::from("/repo"))
+}
+/// Directory holding the default/ and fast/ cargo target dirs.
+pub fn build_root() -> PathBuf {
+    std::env::var_os("VERIF_BUILD").map(PathBuf::from).unwrap_or_else(|| verif_root().join(".build"))
+}
+
 pub fn verif_root() -> PathBuf {
     std::env::var_os("VERIF_ROOT").map(PathBuf::from).unwrap_or_else(|| PathBuf::from("/verif"))
 }
